@@ -2,7 +2,7 @@
 // verdict of the position it produces (check / checkmate / neither), and player_is_in_check / game_ending agree
 // with a brute-force reading of the same position.  The oracle uses a SEPARATE, fresh generator and only the
 // un-annotated primitives (generate_moves, get_attack_targets).
-// Bound: 14 pseudo-random openings + 8 hand-made positions (discovered check by en passant, by a quiet move,
+// Bound: 14 pseudo-random openings + 10 hand-made positions (discovered check by en passant, by a quiet move,
 // double check, castling check, promotion check / mate, back-rank mate, stalemate).
 include!("common.rs");
 use chess::chess_move::chess_move_effect::ChessMoveEffect;
@@ -38,6 +38,9 @@ fn positions() -> Vec<(String, Board)> {
     v.push(("back-rank mate available".into(), setup(&[(G1, Piece::King, Color::White), (E1, Piece::Rook, Color::White), (G8, Piece::King, Color::Black),
         (F7, Piece::Pawn, Color::Black), (G7, Piece::Pawn, Color::Black), (H7, Piece::Pawn, Color::Black)], Color::White)));
     v.push(("stalemate threat".into(), setup(&[(F7, Piece::King, Color::White), (G5, Piece::Queen, Color::White), (H8, Piece::King, Color::Black)], Color::White)));
+    v.push(("only the knight promotion checks".into(), setup(&[(A1, Piece::King, Color::White), (C7, Piece::Pawn, Color::White), (E7, Piece::King, Color::Black)], Color::White)));
+    v.push(("stalemating under-promotions".into(), setup(&[(H6, Piece::King, Color::White), (E7, Piece::Knight, Color::White), (F7, Piece::Pawn, Color::White), (A2, Piece::Pawn, Color::White),
+        (H8, Piece::King, Color::Black), (A3, Piece::Pawn, Color::Black)], Color::White)));
     let mut castle = Board::new();
     for (s, p, c) in [(E1, Piece::King, Color::White), (H1, Piece::Rook, Color::White), (F8, Piece::King, Color::Black), (A7, Piece::Pawn, Color::Black)] { castle.put(s, p, c).unwrap(); }
     castle.lose_castle_rights(0b0111);
@@ -60,7 +63,9 @@ fn annotations_and_verdicts_agree_with_the_positions_they_describe() {
         for m in list.iter() {
             let mut n = b0.clone();
             m.apply(&mut n).unwrap();
-            let (in_check, has_move) = verdict(&mut oracle, &mut n, turn.opposite());
+            // (a FRESH oracle generator per successor: an oracle that shares its caches across positions would inherit
+            // exactly the cache defects this twin is meant to expose)
+            let (in_check, has_move) = verdict(&mut MoveGenerator::new(), &mut n, turn.opposite());
             let expect = if in_check && !has_move { ChessMoveEffect::Checkmate } else if in_check { ChessMoveEffect::Check } else { ChessMoveEffect::None };
             assert!(m.effect() == expect, "{}: {} is annotated {:?}, the position it produces says {:?}", name, m, m.effect(), expect);
         }
